@@ -10,7 +10,7 @@
 //                  recording network function installed; (operation, variables) recorded
 //   All decisions are taken on the Python side (pylib/rt_common.py).
 import { register } from 'node:module';
-import { readFileSync, writeFileSync } from 'node:fs';
+import { readFileSync, writeFileSync, existsSync } from 'node:fs';
 import { pathToFileURL } from 'node:url';
 import path from 'node:path';
 
@@ -272,6 +272,8 @@ async function invoke(f, nested, entrypointByObject) {
 const entrypointByObject = new Map();
 if (artifactDir) {
   for (const [key, info] of Object.entries(job.pointers || {})) {
+    // a pointer that nothing reachable selects has no artifacts
+    if (!existsSync(path.join(artifactDir, key, 'resolver_reader.ts'))) { stats.pointersWithoutArtifact = (stats.pointersWithoutArtifact || 0) + 1; continue; }
     try {
       const m = await import(pathToFileURL(path.join(artifactDir, key, 'resolver_reader.ts')).href);
       pointerByFn.set(m.default, info);
